@@ -218,6 +218,12 @@ def cost_section(tier, seed):
                     # the model's cost function would faithfully take as long as the implementation: not asked beyond the step budget
                     model.append(None)
                     break
+                if n > 20:
+                    # the model works on document *trees*: a sub-document that the implementation shares between the two alternatives
+                    # of a comment layout is a copy there, so its cost function needs 2^n steps on nests the implementation prints in
+                    # linear time.  The cost refinement is checked up to n = 20; beyond that only the measured step counts are.
+                    model.append(None)
+                    continue
                 g = drv.ask('(cost %s %s)' % (val_to_sx(v), settings_sx(4, 79, 71, None, 1000, 0)))
                 try:
                     _ok, calls, work = g.strip('()').split()
